@@ -4,7 +4,7 @@
    V2x64U::new(hi, low) = u64x2(hi, low) puts `hi` in lane 0: every lane index, shuffle table and
    replace_lane index below is mirrored relative to SSE/NEON. *)
 From Coq Require Import NArith List Lia Bool Arith.
-From HW Require Import Word Chunks Packet Mem X86 Portable.
+From HW Require Import Word Chunks Packet Mem Stream X86 Portable.
 Import ListNotations.
 Local Open Scope N_scope.
 
@@ -177,26 +177,16 @@ Definition w_data_to_lanes (packet : list N) : V128 * V128 :=
   let l := p_data_to_lanes packet in
   (WV2_new (lane3 l) (lane2 l), WV2_new (lane1 l) (lane0 l)).
 
-Definition w_absorb_chunks (c : wcore) (ps : list (list N)) : wcore :=
-  fold_left (fun c chunk => let p := w_data_to_lanes chunk in w_update c (fst p) (snd p)) ps c.
+(* update(data_to_lanes(packet)): safe code, no raw loads — the address is irrelevant *)
+Definition w_step (c : wcore) (packet : mem) : res wcore :=
+  let p := w_data_to_lanes (mbytes packet) in Ok (w_update c (fst p) (snd p)).
 
-Definition w_append (prof : profile) (s : wstate) (data : list N) : res wstate :=
-  if is_empty (w_buffer s) then
-    let '(ps, r) := chunks32 data in
-    let c := w_absorb_chunks (w_core s) ps in
-    do b <- set_to prof (w_buffer s) r ;;
-    Ok {| w_core := c; w_buffer := b |}
-  else
-    match fill (w_buffer s) data with
-    | (b, None) => Ok {| w_core := w_core s; w_buffer := b |}
-    | (b, Some tail) =>
-        let p := w_data_to_lanes (inner b) in
-        let c := w_update (w_core s) (fst p) (snd p) in
-        let '(ps, r) := chunks32 tail in
-        let c := w_absorb_chunks c ps in
-        do b' <- set_to prof b r ;;
-        Ok {| w_core := c; w_buffer := b' |}
-    end.
+(* wasm.rs: append — the shared text of Stream.v *)
+Definition w_append_at (prof : profile) (addr : N) (s : wstate) (data : list N) : res wstate :=
+  do r <- g_append w_step 0 prof addr (w_core s) (w_buffer s) data ;;
+  Ok {| w_core := fst r; w_buffer := snd r |}.
+
+Definition w_append (prof : profile) (s : wstate) (data : list N) : res wstate := w_append_at prof 0 s data.
 
 Definition w_pre_finalize (prof : profile) (s : wstate) : res wcore :=
   if negb (is_empty (w_buffer s)) then w_update_remainder prof s else Ok (w_core s).
